@@ -44,6 +44,8 @@ enum
     L_UNNORMALISED,
     L_ZERO_T_OUTSIDE, // origin outside a slab, heading in, and the quotient (face - pos) / dir rounds to exactly 0
     L_NEAR_MISS,      // the line passes the box at a distance between 2^-48 and 2^-8 of the box size
+    L_SLIGHTLY_INVERTED,
+    L_INFINITE_FACE,
     L_NLABELS
 };
 #define C14_LABELS                                                                                                                            \
@@ -51,7 +53,7 @@ enum
         "ray_front_face_min_x", "ray_front_face_max_x", "ray_front_face_min_y", "ray_front_face_max_y", "ray_front_face_min_z", "ray_front_face_max_z",           \
         "line_entry_face_min_x", "line_entry_face_max_x", "line_entry_face_min_y", "line_entry_face_max_y", "line_entry_face_min_z", "line_entry_face_max_z",     \
         "line_exit_face_min_x", "line_exit_face_max_x", "line_exit_face_min_y", "line_exit_face_max_y", "line_exit_face_min_z", "line_exit_face_max_z",           \
-        "boolean_unstable_skipped", "some_quotient_exceeds_TMAX", "denormal_or_zero_t", "direction_not_unit_length", "t_rounds_to_zero_origin_outside", "near_miss_or_near_hit_below_2^-8"
+        "boolean_unstable_skipped", "some_quotient_exceeds_TMAX", "denormal_or_zero_t", "direction_not_unit_length", "t_rounds_to_zero_origin_outside", "near_miss_or_near_hit_below_2^-8", "box_inverted_by_ulps_far_origin", "box_face_at_plus_minus_max"
 #define C14_FACE_LABELS                                                                                                                       \
     "ray_front_face_min_x", "ray_front_face_max_x", "ray_front_face_min_y", "ray_front_face_max_y", "ray_front_face_min_z", "ray_front_face_max_z",               \
         "line_entry_face_min_x", "line_entry_face_max_x", "line_entry_face_min_y", "line_entry_face_max_y", "line_entry_face_min_z", "line_entry_face_max_z",     \
@@ -454,7 +456,7 @@ static void qoracle (const quad* mn, const quad* mx, const quad* p, const quad* 
     o.ray_hit  = o.line_hit && o.tout >= 0;
 }
 
-template <class T> static void float_case (vp::Ctx& c, const Box<Vec3<T>>& b, const Line3<T>& r)
+template <class T> static void float_case (vp::Ctx& c, const Box<Vec3<T>>& b, const Line3<T>& r, bool perface = false)
 {
     typedef std::numeric_limits<T> L;
     const T SENT = (T) 777;
@@ -497,6 +499,17 @@ template <class T> static void float_case (vp::Ctx& c, const Box<Vec3<T>>& b, co
         mxp[i] = mx[i] + delta;
         mnm[i] = mn[i] + delta;
         mxm[i] = mx[i] - delta;
+        if (perface)
+        {
+            // scenes whose coordinates differ by many orders of magnitude (a face at +-max next to faces at +-1): the
+            // rounding of d = face - pos and of t = d / dir moves THAT face by <= 6 eps (|face| + |pos_i|), not by eps
+            // times the largest coordinate of the scene
+            quad dlo = C14_DELTA * eps * (qabs (mn[i]) + qabs (p[i])), dhi = C14_DELTA * eps * (qabs (mx[i]) + qabs (p[i]));
+            mnp[i] = mn[i] - dlo;
+            mnm[i] = mn[i] + dlo;
+            mxp[i] = mx[i] + dhi;
+            mxm[i] = mx[i] - dhi;
+        }
     }
     QOracle o0, op, om;
     qoracle (mn, mx, p, d, o0);
@@ -873,7 +886,91 @@ template <class T> static void close_case (vp::Ctx& c, const char* tn)
             b.max[k] = 0;
         }
     }
-    bool modeA = s.coin ();
+    // drawn here (after the box) so that the classes A and B decode as before when this byte is small
+    unsigned special = (unsigned) s.below (8); // 6: slightly inverted box, 7: box with faces at +-max; else A / B
+    bool     modeA   = s.coin ();
+    if (special == 6)
+    {
+        // a box inverted on one or two axes by a few ulps (or by 2^-k of its size), seen from an origin so far away
+        // that both faces of the inverted slab round to the same distance: still an empty box, both functions false
+        int naxes = 1 + (int) s.below (2);
+        int first = (int) s.below (3);
+        for (int j = 0; j < naxes; ++j)
+        {
+            int i = (first + j) % 3;
+            T   m = b.min[i];
+            if (s.coin ())
+                b.max[i] = step_ulps<T> (m, -(int) s.range (1, 8));
+            else
+                b.max[i] = m - (T) std::ldexp ((double) (std::fabs (m) + 1), -(int) s.range (10, L::digits - 2));
+            if (!(b.max[i] < b.min[i])) b.max[i] = step_ulps<T> (b.min[i], -1);
+        }
+        int    far = (int) s.range (0, sizeof (T) == 4 ? 30 : 60);
+        double dd[3], len = 0;
+        for (int i = 0; i < 3; ++i)
+        {
+            double u = s.uniform (-1, 1);
+            r.pos[i] = (T) ((double) b.min[i] + u * std::ldexp (1.0, far));
+            dd[i]    = (double) b.min[i] - (double) r.pos[i];
+            len += dd[i] * dd[i];
+        }
+        len = std::sqrt (len);
+        if (!(len > 0))
+        {
+            dd[0] = len = 1;
+            dd[1] = dd[2] = 0;
+        }
+        bool tinydir = s.chance (48);
+        for (int i = 0; i < 3; ++i)
+            r.dir[i] = (T) (dd[i] / len);
+        if (tinydir) r.dir[first] = s.coin () ? L::denorm_min () : -L::denorm_min ();
+        if (s.chance (64))
+            for (int i = 0; i < 3; ++i)
+                r.dir[i] = -r.dir[i];
+        if (r.dir[0] == 0 && r.dir[1] == 0 && r.dir[2] == 0) r.dir[0] = 1;
+        c.label (L_SLIGHTLY_INVERTED);
+        c.nt ();
+        VP_NOTE (c, tn << " " << caseStr (b, r) << " box inverted by ulps on " << naxes << " axes, origin 2^" << far << " away");
+        float_case<T> (c, b, r);
+        return;
+    }
+    if (special == 7)
+    {
+        // infinite and semi-infinite boxes (Box::makeInfinite, or single faces at +-max), ordinary origins and directions
+        unsigned mask = 1 + (unsigned) s.below (63);
+        for (int i = 0; i < 3; ++i)
+        {
+            if (mask & (1u << (2 * i))) b.min[i] = -L::max ();
+            if (mask & (2u << (2 * i))) b.max[i] = L::max ();
+        }
+        for (int i = 0; i < 3; ++i)
+        {
+            T lo = b.min[i] == -L::max () ? (T) -8 : b.min[i];
+            T hi = b.max[i] == L::max () ? (T) 8 : b.max[i];
+            r.pos[i] = (T) ((double) lo + s.uniform (-1.5, 2.5) * ((double) hi - (double) lo));
+        }
+        double dd[3], len = 0;
+        for (int i = 0; i < 3; ++i)
+        {
+            dd[i] = s.uniform (-1, 1);
+            if (s.chance (40)) dd[i] = 0;
+            len += dd[i] * dd[i];
+        }
+        len = std::sqrt (len);
+        if (!(len > 0))
+        {
+            dd[0] = len = 1;
+            dd[1] = dd[2] = 0;
+        }
+        for (int i = 0; i < 3; ++i)
+            r.dir[i] = (T) (dd[i] / len);
+        if (r.dir[0] == 0 && r.dir[1] == 0 && r.dir[2] == 0) r.dir[0] = 1;
+        c.label (L_INFINITE_FACE);
+        c.nt ();
+        VP_NOTE (c, tn << " " << caseStr (b, r) << " box with faces at +-max");
+        float_case<T> (c, b, r, true);
+        return;
+    }
     if (modeA)
     {
         int  ax  = (int) s.below (3);
@@ -959,7 +1056,7 @@ template <class T> static void close_case (vp::Ctx& c, const char* tn)
     float_case<T> (c, b, r);
 }
 
-VP_RANDOM (close_calls, 1000000, 20000000, "float or double; boxes with volume (1/4 with a face at coordinate 0); (A) origin -2..4 ulps (denormals, for a face at 0) outside a face, other coordinates inside the slabs, direction component towards the face from {max, 2^(emax-40..emax), the `extreme` set}, other components from the `extreme` set or zero; (B) origin outside, direction towards an edge / corner point displaced outward or inward by 2^-k of the box size, k = 8..20 (float) / 8..48 (double); oracle as in `aimed`; non-trivial = as in `extreme`, or the entry quotient rounds to exactly 0 with the origin outside, or class (B)")
+VP_RANDOM (close_calls, 1000000, 20000000, "float or double; boxes with volume (1/4 with a face at coordinate 0); (A) origin -2..4 ulps (denormals, for a face at 0) outside a face, other coordinates inside the slabs, direction component towards the face from {max, 2^(emax-40..emax), the `extreme` set}, other components from the `extreme` set or zero; (B) origin outside, direction towards an edge / corner point displaced outward or inward by 2^-k of the box size, k = 8..20 (float) / 8..48 (double); (C, 1/8) a box inverted on one or two axes by 1..8 ulps or 2^-k of its size, origin up to 2^30 (2^60) away, direction towards it or denormal on the inverted axis: both functions must answer false; (D, 1/8) boxes with 1..6 faces at +-max (makeInfinite and semi-infinite boxes), ordinary origins and unit directions, oracle with a per-face rounding allowance; oracle as in `aimed`; non-trivial = as in `extreme`, or the entry quotient rounds to exactly 0 with the origin outside, or class (B)")
 {
     if (c.s.coin ())
         close_case<double> (c, "double");
@@ -967,7 +1064,7 @@ VP_RANDOM (close_calls, 1000000, 20000000, "float or double; boxes with volume (
         close_case<float> (c, "float");
 }
 VP_LABELS (close_calls, C14_LABELS)
-VP_REQUIRE_LABELS (close_calls, "ray_hit", "ray_miss", "line_miss", "origin_on_surface", "axis_parallel", "denormal_or_zero_t", "t_rounds_to_zero_origin_outside", "near_miss_or_near_hit_below_2^-8", "boolean_unstable_skipped")
+VP_REQUIRE_LABELS (close_calls, "ray_hit", "ray_miss", "line_miss", "origin_on_surface", "axis_parallel", "denormal_or_zero_t", "t_rounds_to_zero_origin_outside", "near_miss_or_near_hit_below_2^-8", "boolean_unstable_skipped", "box_inverted_by_ulps_far_origin", "box_face_at_plus_minus_max", "empty_box")
 VP_FUZZABLE (close_calls)
 
 VP_MAIN ("C14")
